@@ -19,4 +19,12 @@ try:
         print(seed, pid, "stored")
 finally:
     subprocess.run(["git", "-C", "/repo", "checkout", "--", "."])
-    subprocess.run(["git", "-C", "/verif", "checkout", "--", "coq/ApiTable.v", "evidence"])
+# an entry is kept only if the unchanged tree passes it
+for pid in pids:
+    fn = f"/verif/corpus/{pid}/{seed}.json"
+    if os.path.exists(fn):
+        out = subprocess.run(["/verif/check", pid, "--replay", fn], capture_output=True, text=True).stdout
+        if "VIOLATION" in out or "FRAMEWORK" in out:
+            os.remove(fn)
+            print(seed, pid, "dropped: the unchanged tree does not pass it")
+subprocess.run(["git", "-C", "/verif", "checkout", "--", "coq/ApiTable.v", "evidence"])
